@@ -18,6 +18,7 @@ import (
 	"verifharness/adapter/common"
 	"verifharness/gen/javagen"
 	"verifharness/gen/javawide"
+	"verifharness/oracle"
 	"verifharness/run"
 )
 
@@ -340,12 +341,10 @@ func runCase(c *run.Ctx, o *run.Outcome) {
 					o.Count("cli_watchdog", 1)
 					continue
 				}
-				trace := strings.Contains(res.Stderr, "panic:") || strings.Contains(res.Stderr, "goroutine ")
+				sig := oracle.NoCrashCLIVerdict(cmd[0], res.ExitCode, res.Stderr, "github.com/modernizing/coca/")
 				switch {
-				case trace:
-					o.Violate("cli-panic@"+cliPanicSite(res.Stderr)+"/"+cmd[0], "`coca %s` exit %d with a panic trace: %s", strings.Join(cmd[:len(cmd)-1], " "), res.ExitCode, short(res.Stderr, 300))
-				case res.ExitCode != 0:
-					o.Violate("cli-exit-nonzero/"+cmd[0], "`coca %s` exit %d: %s", strings.Join(cmd[:len(cmd)-1], " "), res.ExitCode, short(res.Stderr+" "+tail(res.Stdout, 200), 300))
+				case sig != "":
+					o.Violate(sig, "`coca %s` exit %d: %s", strings.Join(cmd[:len(cmd)-1], " "), res.ExitCode, short(res.Stderr+" "+tail(res.Stdout, 200), 300))
 				default:
 					o.Count("cli_commands_ok", 1)
 					if cmd[0] == "analysis" {
